@@ -90,7 +90,14 @@ func PeerTypes(p *core.Prog, regPkgs []string, extra []string) map[string]bool {
 					return true
 				}
 				sel, ok := call.Fun.(*ast.SelectorExpr)
-				if !ok || sel.Sel.Name != "RegisterInterface" {
+				if !ok || sel.Sel.Name != "RegisterInterface" || len(call.Args) < 2 {
+					return true
+				}
+				// only the reactors' network message interfaces (the WAL registration in the same package
+				// describes local records)
+				iface := types.ExprString(call.Args[0])
+				if !(strings.Contains(iface, "ConsensusMessage") || strings.Contains(iface, "BlockchainMessage") || strings.Contains(iface, "MempoolMessage") ||
+					strings.Contains(iface, "PexMessage") || strings.Contains(iface, "{Message}") || strings.Contains(iface, "{ Message }")) {
 					return true
 				}
 				for _, a := range call.Args[1:] {
@@ -613,4 +620,112 @@ func missing(lo, up bool) string {
 		return "lower"
 	}
 	return "upper"
+}
+
+// PanicFinding: a no-return call or panic whose guard chain depends on peer-controlled data.
+type PanicFinding struct {
+	Fn    *cfgx.Fn
+	Ins   ssa.Instruction
+	Guard string
+	Taint []string
+}
+
+// CheckPanics lists explicit panics (panic(), no-return helpers) in scope that are edge-dominated by
+// a condition over peer-controlled integers/lengths or nil-ness of peer objects.
+func (e *Engine) CheckPanics(nr *cfgx.NoRet) (out []PanicFinding, examined int) {
+	for fn := range e.Scope {
+		if fn.Blocks == nil {
+			continue
+		}
+		f := e.fnOf(fn)
+		for _, b := range fn.Blocks {
+			for _, ins := range b.Instrs {
+				isPanic := false
+				if _, ok := ins.(*ssa.Panic); ok {
+					isPanic = true
+				} else if nr.IsNoRetCall(ins) {
+					isPanic = true
+				}
+				if !isPanic || !f.Live(ins) {
+					continue
+				}
+				examined++
+				for _, g := range f.Guards(ins) {
+					// only the condition that directly selects the panic (the If whose edge enters the panic's
+					// block, possibly through single-predecessor blocks) is its trigger; guards further up
+					// merely had to pass
+					if !directlyEnters(g.If.Block(), b) {
+						continue
+					}
+					var ts []string
+					var walk func(v ssa.Value, d int)
+					walk = func(v ssa.Value, d int) {
+						if d > 6 || v == nil {
+							return
+						}
+						switch x := v.(type) {
+						case *ssa.BinOp:
+							walk(x.X, d+1)
+							walk(x.Y, d+1)
+						case *ssa.UnOp:
+							if x.Op == token.NOT {
+								walk(x.X, d+1)
+								return
+							}
+							o := e.Origins(v)
+							ts = append(ts, o.Taint...)
+							for _, pp := range o.Paths {
+								ts = append(ts, pp.Expr)
+							}
+						case *ssa.Call:
+							// len(peer slice) is peer-chosen too
+							if bi, ok := x.Call.Value.(*ssa.Builtin); ok && bi.Name() == "len" && len(x.Call.Args) == 1 {
+								if ld, ok := x.Call.Args[0].(*ssa.UnOp); ok {
+									if fa, ok := ld.X.(*ssa.FieldAddr); ok && e.peerField(fa.X.Type(), fa.Field) {
+										ts = append(ts, cfgx.Expr(x))
+									}
+								}
+							}
+						default:
+							o := e.Origins(v)
+							ts = append(ts, o.Taint...)
+							for _, pp := range o.Paths {
+								ts = append(ts, pp.Expr)
+							}
+						}
+					}
+					walk(g.Cond, 0)
+					if len(ts) > 0 {
+						sort.Strings(ts)
+						out = append(out, PanicFinding{f, ins, cfgx.GuardString(g), ts})
+						break
+					}
+				}
+			}
+		}
+	}
+	sort.Slice(out, func(i, j int) bool {
+		a, b := out[i], out[j]
+		if core.FuncName(a.Fn.F) != core.FuncName(b.Fn.F) {
+			return core.FuncName(a.Fn.F) < core.FuncName(b.Fn.F)
+		}
+		return a.Guard < b.Guard
+	})
+	return
+}
+
+func directlyEnters(from, to *ssa.BasicBlock) bool {
+	cur := to
+	for i := 0; i < 4; i++ {
+		for _, p := range cur.Preds {
+			if p == from {
+				return true
+			}
+		}
+		if len(cur.Preds) != 1 {
+			return false
+		}
+		cur = cur.Preds[0]
+	}
+	return false
 }
